@@ -258,7 +258,12 @@ func bubbleUpNullValuesInPlaceRec(schema *ast.Schema, currentType *ast.Type, sel
 	case []interface{}:
 		for i, value := range result {
 			pathWithIndex := appendPathIndex(path, i)
-			lowerErrs, lowerBubbleUp, lowerErr := bubbleUpNullValuesInPlaceRec(schema, currentType, selectionSet, value, pathWithIndex)
+			elementType := currentType
+			if _, nested := value.([]interface{}); nested && currentType != nil && currentType.Elem != nil {
+				// an element that is itself a list is judged by the element type, not by the outer list's
+				elementType = currentType.Elem
+			}
+			lowerErrs, lowerBubbleUp, lowerErr := bubbleUpNullValuesInPlaceRec(schema, elementType, selectionSet, value, pathWithIndex)
 			if lowerErr != nil {
 				return nil, false, lowerErr
 			}
